@@ -320,6 +320,60 @@ func (t *tr) spec(e ast.Expr, sc *specCtx) Term {
 		return r
 	case *ast.CallExpr:
 		return t.specCall(x, sc)
+	case *ast.CompositeLit:
+		// struct values only: T{a, b} or T{f: a}
+		T := t.resolveType(x.Type, sc.pkg)
+		if T == nil {
+			return t.specErr(sc, "composite literal: unknown type")
+		}
+		u, ok := T.Underlying().(*types.Struct)
+		if !ok {
+			return t.specErr(sc, "composite literal: only struct values are supported in specifications")
+		}
+		W := t.V.W
+		ss := W.structSortOf(T, u)
+		args := make([]Term, len(ss.Fields))
+		for i, f := range ss.Fields {
+			args[i] = W.zeroOfSort(f.Sort, f.T)
+		}
+		put := func(idx int, v Term) {
+			f := ss.Fields[idx]
+			if v.T != nil && isInterface(f.T) && !isInterface(v.T) && v.S != "0" {
+				v = t.box(v, v.T, f.T)
+			}
+			if v.Sort != f.Sort {
+				if v.S == "0" && f.Sort == SSlice {
+					v = W.zero(f.T)
+				} else {
+					t.specErr(sc, "composite literal: field %s has sort %s, value %s has sort %s", f.Name, f.Sort, v.S, v.Sort)
+					return
+				}
+			}
+			args[idx] = v
+		}
+		for i, el := range x.Elts {
+			if kv, ok := el.(*ast.KeyValueExpr); ok {
+				id, ok := kv.Key.(*ast.Ident)
+				idx := -1
+				if ok {
+					idx = ss.fieldIndex(id.Name)
+				}
+				if idx < 0 {
+					return t.specErr(sc, "composite literal: unknown field")
+				}
+				put(idx, t.spec(kv.Value, sc))
+			} else if i < len(args) {
+				put(i, t.spec(el, sc))
+			}
+		}
+		var r Term
+		if len(args) == 0 {
+			r = Term{S: ss.ctor(), Sort: ss.Name}
+		} else {
+			r = app(ss.ctor(), ss.Name, args...)
+		}
+		r.T = T
+		return r
 	}
 	return t.specErr(sc, "unsupported spec expression %T", e)
 }
@@ -519,6 +573,22 @@ func (t *tr) specCall(c *ast.CallExpr, sc *specCtx) Term {
 			return tFalse
 		}
 		return t.spec(c.Args[0], sc.inOld())
+	case "at_loop": // at_loop(k, e): e evaluated in the state in which loop k was (last) entered from outside
+		if !need(2) {
+			return tFalse
+		}
+		kl, ok := c.Args[0].(*ast.BasicLit)
+		if !ok {
+			return t.specErr(sc, "at_loop: first argument must be a loop ordinal")
+		}
+		k, _ := strconv.Atoi(kl.Value)
+		env, ok := t.loopEntry[k]
+		if !ok {
+			return t.specErr(sc, "at_loop: loop %d has not been entered at this point", k)
+		}
+		n := *sc
+		n.cur = env
+		return t.spec(c.Args[1], &n)
 	case "implies":
 		if !need(2) {
 			return tFalse
@@ -541,8 +611,8 @@ func (t *tr) specCall(c *ast.CallExpr, sc *specCtx) Term {
 		}
 		return r
 	case "forall", "exists":
-		if len(c.Args) != 2 && len(c.Args) != 4 {
-			return t.specErr(sc, "%s(i, lo, hi, P) or %s(i, P)", name, name)
+		if len(c.Args) != 2 && len(c.Args) != 3 && len(c.Args) != 4 {
+			return t.specErr(sc, "%s(i, lo, hi, P), %s(i, P) or %s(k, T, P)", name, name, name)
 		}
 		id, ok := c.Args[0].(*ast.Ident)
 		if !ok {
@@ -550,6 +620,19 @@ func (t *tr) specCall(c *ast.CallExpr, sc *specCtx) Term {
 		}
 		*sc.qn++
 		bv := Term{S: sym(fmt.Sprintf("%s$q%d", id.Name, *sc.qn)), Sort: SInt, T: types.Typ[types.Int]}
+		if len(c.Args) == 3 {
+			// typed binder: forall(k, T, P) quantifies over all values of (the encoding of) Go type T
+			T := t.resolveType(c.Args[1], sc.pkg)
+			if T == nil {
+				return t.specErr(sc, "%s: unknown type", name)
+			}
+			bv.Sort, bv.T = t.V.W.sortOf(T), T
+			p := t.spec(c.Args[2], sc.with(id.Name, bv))
+			if name == "forall" {
+				return forallT([]Term{bv}, p)
+			}
+			return existsT([]Term{bv}, p)
+		}
 		sc2 := sc.with(id.Name, bv)
 		var body Term
 		if len(c.Args) == 4 {
